@@ -56,7 +56,8 @@ def dunder_facts(model, cls, dunder):
     names = (a.id if isinstance(a, ast.Name) else None, b.id if isinstance(b, ast.Name) else None)
     order = "normal" if names == (selfn, othern) else "reflected" if names == (othern, selfn) else "?"
     opname = op.value if isinstance(op, ast.Constant) else None
-    lam = lambda_op(call.args[3]) if len(call.args) > 3 else None
+    from .facts import callable_op
+    lam = callable_op(fn.node, call.args[3]) if len(call.args) > 3 else None
     return {"fn": fn, "op": opname, "order": order, "lam": lam, "has_lambda": len(call.args) > 3, "node": rets[0]}
 
 
